@@ -47,8 +47,9 @@ def truncation_cases(tier, rng, prefix_id, n_streams, cuts_per):
             for d in (-2, -1, 0, 1, 2): cuts.add(W * k + d)
         for e in rng.sample(ends, min(len(ends), cuts_per // 3)):
             for d in (-1, 0, 1): cuts.add(e + d)
-        while len(cuts) < cuts_per: cuts.add(rng.randrange(0, len(data) + 1))
-        cuts = sorted(c for c in cuts if 0 <= c <= len(data))
+        cuts = set(c for c in cuts if 0 <= c <= len(data))
+        while len(cuts) < min(cuts_per, len(data) + 1): cuts.add(rng.randrange(0, len(data) + 1))      # (a short stream has fewer cut points than asked for)
+        cuts = sorted(cuts)
         if len(data) > 20000:
             # (each case carries the prefix in its script: the long streams get the window boundaries and at most 60 further cuts)
             edge = [c for c in cuts if c > len(data) - 3 or c % W < 3 or c % W > W - 3]
